@@ -21,11 +21,11 @@ end = tail.index('### 0.6')
 cnt = lambda k: sum(1 for r in rows if k in r.split('|')[3])
 para = ('\n\nOf the %d, %d were detected by the checks as first built, %d were missed (or only partly seen) and drove a\n'
         'strengthening (new scenario, new table row, new observation) after which they are detected in the quick tier,\n'
-        '%d is neutralised by a later fix (C07-4: it no longer breaks the property), %d are undetected (C11-3: a dropped moderation\n'
-        'command that leaves the server self-consistent, arguably outside the property as stated; C03-3, C03-4: found in the last\n'
-        'hour, see their rows -- C03-3 is at least reported as MODEL-DRIFT).  The second round (agents told which mechanisms had been\n'
-        'studied) was the more productive one: it led to the genuine findings F27, F28, F29, exposed the print-budget bug of\n'
-        '`Trace_Rec`, and produced the inotify observer of C16 and the forced delivery schedules of C14.\n\n'
+        '%d is neutralised by a later fix (C07-4: it no longer breaks the property), %d is undetected (C11-3: a dropped moderation\n'
+        'command that leaves the server self-consistent, arguably outside the property as stated).  The second round (agents told\n'
+        'which mechanisms had been studied) was the more productive one: it led to the genuine findings F27, F28, F29, exposed the\n'
+        'print-budget bug of `Trace_Rec` and the masking of one property\'s clause by an earlier failure of another\'s in `Trace_Group` /\n'
+        '`Trace_Forward`, and produced the inotify observer of C16, the forced delivery schedules of C14 and the NACK-heavy histories of C03.\n\n'
         % (len(rows), cnt('detected as built'), cnt('after strengthening'), cnt('neutralised'), cnt('NOT detected')))
 s = s[:a] + '\n'.join(rows) + para + tail[end:]
 s = re.sub(r"\d+ changes, two per property and a second round of two for [^;]*; each",
